@@ -355,8 +355,12 @@ impl Default for EmmyLuaAnalysis {
     }
 }
 
-unsafe impl Send for EmmyLuaAnalysis {}
-unsafe impl Sync for EmmyLuaAnalysis {}
+// `EmmyLuaAnalysis` is `Send + Sync` because every field is: the compiler derives it (and keeps
+// checking it) without an `unsafe impl`.
+const _: fn() = || {
+    fn assert_send_sync<T: Send + Sync>() {}
+    assert_send_sync::<EmmyLuaAnalysis>();
+};
 
 #[cfg(test)]
 mod tests {
